@@ -952,15 +952,27 @@ func run(c *h.Check) {
 					report(vs, rc)
 				}
 			}
-			// the registry grows and shrinks between replays of one bus
-			rc := rawCase{Part: "raw", Names: names, Edges: append([]edge(nil), order...), Variant: variants[0], Fail: -1, Incremental: true}
-			vs, evals, nt := runRaw(rc)
-			c.Count("evaluations", int64(evals))
-			c.Count("transitions", int64(evals))
-			c.Count("traces_validated_against_impl", int64(evals))
-			c.Count("nontrivial", int64(nt))
-			c.Count("replays_between_registry_changes", 1)
-			report(vs, rc)
+			// the registry grows and shrinks between replays of one bus: without a failing
+			// upcaster, and with the first / the last registered one failing (the error handler,
+			// given as an option or by the setter, outlives every change of the registry)
+			type incr struct {
+				variant string
+				fail    int
+			}
+			incrs := []incr{{variants[0], -1}}
+			if len(order) > 0 {
+				incrs = append(incrs, incr{variants[0], order[0].ID}, incr{variants[1], order[len(order)-1].ID})
+			}
+			for _, ic := range incrs {
+				rc := rawCase{Part: "raw", Names: names, Edges: append([]edge(nil), order...), Variant: ic.variant, Fail: ic.fail, Incremental: true}
+				vs, evals, nt := runRaw(rc)
+				c.Count("evaluations", int64(evals))
+				c.Count("transitions", int64(evals))
+				c.Count("traces_validated_against_impl", int64(evals))
+				c.Count("nontrivial", int64(nt))
+				c.Count("replays_between_registry_changes", 1)
+				report(vs, rc)
+			}
 		}
 		for _, g := range graphs(names) {
 			if c.TimeUp() {
